@@ -146,4 +146,7 @@ def templates(cfg):
     from . import temporal
 
     out += temporal.templates_for("C05", cfg)
+    from . import gen
+
+    out += gen.templates_for("C05", cfg)  # compositions drawn from the typed pipeline grammar (pv/corpora/gen.py)
     return out
